@@ -777,6 +777,13 @@ func C19(r *vf.Run) {
 			for k := 0; k < 100 && !r.TooMany(); k++ {
 				listing := g.Intn(3) == 0
 				calls, _, _ := genHistory(g, histOpts{maxCalls: 150, listing: listing, dataBlocks: g.Intn(3) == 0, withRefs: true, withDup: g.Intn(4) == 0, rebase: g.Intn(3) == 0})
+				if g.Intn(6) == 0 {
+					// SetBase takes any 32-bit value: a base just below 2^32 (the counter wraps mid-program)
+					// or 2^24 is a call sequence like any other
+					top := []uint32{0xFFFFFFFF, 0x00FFFFFF, 0x7FFFFFFF}[g.Intn(3)]
+					calls = append([]hcall{{Op: "setbase", Arg: top - uint32(g.Intn(400))}}, calls...)
+					cells["nil-base-near-limit"]++
+				}
 				names := labelNames(calls)
 				real := asm.NewEmitter(make([]byte, 16384), listing)
 				dry := asm.NewEmitter(nil, listing)
